@@ -67,7 +67,7 @@ for k in sorted(data, key=lambda x: (x.split("-")[0], x)):
 planted = [d for d in data.values() if d.get("kind") == "planted"]
 seeded = [d for d in data.values() if d.get("kind") == "seeded" and not d.get("withdrawn")]
 out.append("")
-out.append("Planted: %d of %d caught. Seeded: %d of %d caught (two further seeded changes are not counted: one does not violate its property as worded, one needs a thread interleaving that its property does not quantify over).\n" % (
+out.append("Planted: %d of %d caught. Seeded: %d of %d caught (three further seeded changes are not counted: one does not violate its property as worded, one needs a thread interleaving that its property does not quantify over, one was neutralised by a later repair of the library).\n" % (
     sum(1 for d in planted if d["exit"] == 1), len(planted), sum(1 for d in seeded if d["exit"] == 1), len(seeded)))
 # negative controls
 cpath = os.path.join(VERIF, "controls_results.json")
